@@ -25,6 +25,7 @@ def _names(e):
 
 def run(ctx):
     repo = ctx.repo
+    _flatten_order(ctx, repo)
     ctx.decided += [
         'C18.a Sampler.run / run_async / sample / run_batch_async / _run_sweep_impl / _run_sweep_async_impl reach run_sweep(_async) of self with program, params and repetitions '
         'derived from their own arguments and return values derived from the hook\'s result',
@@ -595,3 +596,37 @@ def _axis_rule(ctx, repo, rm, rd):
         ok2 = bool(loops8) and names[0] in ast.unparse(loops8[0].iter)
         return ok and ok2, f'the 2-D measurements are unpacked as {names} and batched over {ast.unparse(loops8[0].iter) if loops8 else None}: axis 0 is repetitions, axis 1 qubits'
     site(f'{res.qual}._vectorized_histogram:axes', rm.rel, fn8.lineno, s8)
+
+
+def _flatten_order(ctx, repo):
+    """C18.h - records are flattened and rebuilt in index (C) order only."""
+    ctx.decided.append('C18.h every ravel / flatten / reshape / packbits / unpackbits in the result-storage code works in index order: no order= other than C (memory order K/A/F differs from '
+                       'index order for transposed views, and the reader rebuilds in index order)')
+    ctx.rule('C18.h', 'one flattening order: in cirq.study.result and cirq_google.api.v2.results, calls of ravel / flatten / reshape / np.reshape / np.ravel / packbits / unpackbits / '
+             'flat have no order= argument other than \'C\' and packbits is given the array itself (numpy flattens it in index order) - writer and reader then agree for every memory layout',
+             floor=6, style='TBL')
+    n = 0
+    for rel in ('cirq-core/cirq/study/result.py', 'cirq-google/cirq_google/api/v2/results.py'):
+        if not repo.exists(rel):
+            raise AnalysisError(f'{rel} vanished')
+        m = repo.module(rel)
+        for fn in [f for f in ast.walk(m.tree) if isinstance(f, ast.FunctionDef)]:
+            k = 0
+            for c in ast.walk(fn):
+                if not isinstance(c, ast.Call):
+                    continue
+                nm = (call_name(c) or '').split('.')[-1]
+                if nm not in ('ravel', 'flatten', 'reshape', 'packbits', 'unpackbits', 'transpose', 'swapaxes'):
+                    continue
+                if nm in ('transpose', 'swapaxes'):
+                    continue
+                k += 1
+                n += 1
+                orders = [kw.value for kw in c.keywords if kw.arg == 'order'] + ([c.args[0]] if nm in ('ravel', 'flatten') and isinstance(c.func, ast.Attribute)
+                                                                                   and not (isinstance(c.func.value, ast.Name) and c.func.value.id in ('np', 'numpy')) and c.args else [])
+                bad = [o for o in orders if not (isinstance(o, ast.Constant) and o.value == 'C')]
+                ok = not bad
+                ctx.ob('C18.h', f'{m.name}.{fn.name}:{nm}#{k}', ok, '' if ok else f'`{ast.unparse(c)[:70]}` flattens in order {ast.unparse(bad[0])}: for a transposed or sliced records array the '
+                       'bits are written in memory order but read back in index order, so repetitions / instances / qubits are permuted', m.rel, c.lineno)
+    if n == 0:
+        raise AnalysisError('C18.h: no flattening call found')
